@@ -8,9 +8,17 @@ ID = 'C14'
 TRANSLATORS = []
 PROPERTY_FILE = 'Properties/C14.v'
 THEOREMS = ['C14_rules_denotation', 'C14_rules_three_valued_refine', 'C14_interface_unchanged', 'C14_well_formed',
-            'C14_function_preserved', 'C14_total_assignments', 'C14_truth_table_preserved', 'C14_bench_basis',
+            'C14_function_preserved', 'C14_total_assignments', 'C14_truth_table_preserved',
+            'C14_evaluate_partial', 'C14_get_truth_table_partial', 'C14_bench_basis',
             'C14_helpers_in_blocks', 'C14_partial_assignments_differ', 'C14_example']
-PARTIAL = {}
+PARTIAL = {'C14_evaluate_partial': 'entry-point version of C14_truth_table_preserved: results of evaluate on every Boolean '
+                                    'vector are equal whenever both calls return; that the call on the converted circuit '
+                                    'returns whenever the call on the original does (completeness of the evaluators, the other '
+                                    'half of C01) is not proved',
+           'C14_get_truth_table_partial': 'get_truth_table c and get_truth_table (into_bench c) are equal whenever both return; '
+                                           'equality of the two results as `res` values needs completeness of the evaluators '
+                                           '(C01), not proved here. The statement over the relational semantics Eval '
+                                           '(C14_function_preserved, C14_truth_table_preserved) is complete'}
 LEVEL_TEXT = ('proved for every circuit satisfying the C02 invariant (WF and INPUT gates without operands) whose operand '
               'counts are accepted by the operators, and for every list of fresh labels: whenever into_bench returns, '
               'inputs and outputs are unchanged, the result is well formed, every gate of the original circuit (hence '
